@@ -23,7 +23,7 @@ ASSUMPTIONS = ['membership of the ones vector is generated with a margin (exact 
                'mixture_inference.estimate_total is imported through a placeholder jax package (jax is not installed); MixtureInference itself is not run',
                'relative tolerance 1e-6']
 PLAN = {
-    'quick': dict(cases=640, budget_s=60, case_timeout=120, min_cases=150),
+    'quick': dict(cases=640, budget_s=100, case_timeout=120, min_cases=100),
     'thorough': dict(cases=20000, budget_s=900, case_timeout=240, min_cases=3333),
 }
 KINDS = ['identity', 'scaled', 'prefix', 'ranges', 'square', 'tall', 'integer', 'sparse', 'rankdef_with_ones',
